@@ -245,7 +245,8 @@ def run(ctx):
                             "type forms (closed, unclosed, half closed); every text class also as an imported module; every "
                             "import graph over <= 3 modules (530) and chains/cycles of 2, 10, 200 modules; "
                             "non-trivial = distinct non-empty input")
-    ctx.coverage["exhaustive"] = {"import_graphs_up_to_3_modules": True, "prefixes_of_corpus": True}
+    ctx.coverage["exhaustive"] = False
+    ctx.coverage["exhaustive_parts"] = {"import_graphs_up_to_3_modules": True, "prefixes_of_corpus": True}
     ctx.coverage["traces_validated_against_impl"] = ctx.evaluations
     if ctx.broken and not ctx.violations:
         ctx.violation({"kind": "broken-tie", "broken": ctx.broken[:10], "log": st.get("log", "")[-3000:]},
